@@ -112,7 +112,9 @@ def projection(res, logs):
 
 
 # ------------------------------------------------------------------ C15
-KILL_POINTS = ["before_run", "during_attach", "after_connect", "mid_output", "between_groups", "after_last_output"]
+# stalled_then_killed: the listener stops reading (SIGSTOP) before the first flush reaches it and is killed with that data
+# unread in its socket - the run's next write is answered with a connection reset rather than a broken pipe
+KILL_POINTS = ["before_run", "during_attach", "after_connect", "mid_output", "between_groups", "after_last_output", "stalled_then_killed"]
 
 
 def established(port):
@@ -189,6 +191,14 @@ def c15_scenario(bins, idx, kill_point, flt, rng, cancel=False):
                     time.sleep(0.005)
                 if kill_point == "mid_output":
                     time.sleep(0.65)          # let the first flush reach the listener
+                lst.kill()
+            if way == "killed" and kill_point == "stalled_then_killed":
+                m = fx.marker("%s-printed1-app" % way)
+                deadline = time.time() + 20
+                while not os.path.exists(m) and time.time() < deadline and p.poll() is None:
+                    time.sleep(0.005)
+                os.killpg(lst.p.pid, signal.SIGSTOP)
+                time.sleep(0.9)           # at least one flush is written to the socket and stays unread
                 lst.kill()
             if way == "killed" and kill_point == "between_groups":
                 m = fx.marker("ended-%s" % fx.key_of("app2", "build"))
